@@ -760,14 +760,77 @@ def symbolic_length(d):
     return BV(length_of(d))
 
 
+def validity(d, path='result'):
+    """the documented structural rules (what validityerror checks) as violation conditions over a decoded result: C11's "operations on valid
+    arrays return valid arrays" for every harness that decodes a result.  Lengths of opaque contents are their symbolic length terms."""
+    out = []
+    c = d['cls']
+    if c in ('opaque', 'numpy'):
+        return out
+    if c == 'record':
+        for i, x in enumerate(d['contents']):
+            out.append(('%s: field %d is at least as long as the record array' % (path, i), symbolic_length(x) < d['length']))
+            out += validity(x, '%s.field(%d)' % (path, i))
+        return out
+    if c == 'union':
+        for i, (t, ix) in enumerate(zip(d['tags'], d['index'])):
+            t8 = t if t.size() == 8 else z3.Extract(7, 0, t)
+            bad = z3.Or(t8 < 0, t8 >= len(d['contents']), ix < 0)
+            for k, x in enumerate(d['contents']):
+                bad = z3.Or(bad, z3.And(t8 == k, ix >= symbolic_length(x)))
+            out.append(('%s: tag / index %d address an element of a content' % (path, i), bad))
+        for k, x in enumerate(d['contents']):
+            if x['cls'] == 'union':
+                out.append(('%s: no union directly inside a union' % path, z3.BoolVal(True)))
+            out += validity(x, '%s.content(%d)' % (path, k))
+        return out
+    L = symbolic_length(d['content'])
+    if c == 'regular':
+        out.append(('%s: size * length fits in the content' % path, z3.Or(d['size'] < 0, d['length'] < 0, d['size'] * d['length'] > L)))
+    elif c == 'listoffset':
+        offs = d['offsets']
+        if offs:
+            out.append(('%s: offsets start at a non-negative position' % path, offs[0] < 0))
+            for i in range(len(offs) - 1):
+                out.append(('%s: offsets[%d] <= offsets[%d]' % (path, i, i + 1), offs[i] > offs[i + 1]))
+            out.append(('%s: the last offset is inside the content' % path, offs[-1] > L))
+    elif c == 'list':
+        for i, (a, b) in enumerate(zip(d['starts'], d['stops'])):
+            out.append(('%s: list %d has start <= stop inside the content (unless empty)' % (path, i), z3.Or(a > b, z3.And(a != b, z3.Or(a < 0, b > L)))))
+    elif c == 'indexed':
+        for i, t in enumerate(d['index']):
+            out.append(('%s: index[%d] addresses the content' % (path, i), z3.Or(t < 0, t >= L)))
+    elif c == 'option':
+        for i, t in enumerate(d['index']):
+            out.append(('%s: index[%d] is missing or addresses the content' % (path, i), t >= L))
+        if d['content']['cls'] in ('option', 'bytemasked', 'bitmasked', 'unmasked'):
+            pass          # produced by intermediate steps; simplify_optiontype harnesses state the no-nesting rule where it is promised
+    elif c == 'bytemasked':
+        out.append(('%s: the content is at least as long as the mask' % path, L < len(d['mask'])))
+    elif c == 'bitmasked':
+        out.append(('%s: the content is at least as long as the declared length' % path, L < d['length']))
+        out.append(('%s: the bit mask covers the declared length' % path, z3.BitVecVal(8 * len(d['mask']), 64) < d['length']))
+    out += validity(d['content'], path + '.content')
+    return out
+
+
+VALIDITY = [True]
+
+
 def compare_value(res, want, path='value'):
-    """compare(value(res), want); when the shape of the result is not determined by the case split (a result whose length is a free symbolic
+    """compare(value(res), want) plus the structural validity of the result; when the shape of the result is not determined by the case split (a result whose length is a free symbolic
     term - which is already wrong when `want` has a fixed length), compare the length symbolically and the leading entries by position"""
+    extra = []
+    if VALIDITY[0]:
+        try:
+            extra = validity(res)
+        except Unsupported:
+            extra = []
     try:
-        return compare(value(res), want, path)
+        return compare(value(res), want, path) + extra
     except Unsupported:
         L = symbolic_length(res)
         out = [('%s has %d entries' % (path, len(want)), L != len(want))]
         for i, w in enumerate(want):
             out += compare(at(res, i), w, '%s[%d]' % (path, i))
-        return out
+        return out + extra
